@@ -70,9 +70,14 @@ ASSUMPTIONS = [
     "on the dataset level the eligible events are those passing ds.filter.all as observed "
     "before the call, invalid = nan/inf after the requested scale (log of values <= 0)",
 ]
-MIN_EVALS = {"rand.selection": 300, "rand.count": 300, "rand.reproducible": 300,
-             "grid.selection": 300, "grid.count": 300, "grid.reproducible": 300,
-             "scatter.mask": 100, "scatter.count": 100, "limit.count": 50}
+MIN_EVALS = {"rand.selection": 5000, "rand.count": 5000, "rand.eligible": 5000,
+             "rand.reproducible": 5000, "rand.reproducible_interleaved": 300,
+             "grid.selection": 5000, "grid.count": 5000, "grid.eligible": 5000,
+             "grid.reproducible": 5000, "grid.reproducible_interleaved": 300,
+             "scatter.mask": 2000, "scatter.values": 2000, "scatter.count": 2000,
+             "scatter.eligible": 2000, "scatter.reproducible": 1000,
+             "scatter.values_without_mask": 300,
+             "limit.count": 1000, "limit.subset": 1000, "limit.reproducible": 1000}
 WATCHDOG_S = {"quick": 400, "thorough": 3000}
 
 ALIAS_ADJUNCT = True      # D09 (C17) observed through C16; set False to drop the shard
@@ -88,27 +93,28 @@ def _split(kind, total, shards, **extra):
     return out
 
 
-EXH = {"quick": {"rand_len": 4, "grid_len": 2}, "thorough": {"rand_len": 6, "grid_len": 4}}
+EXH = {"quick": {"rand_len": 5, "grid_len": 3}, "thorough": {"rand_len": 6, "grid_len": 4}}
 
 
 def exhaustive(tier):
-    return False   # the exhaustive sub-spaces are a part of an exploration-level check
+    return False   # the exhaustive sub-spaces are only a part of an exploration-level check
 
 
 def plan(tier, seed):
     from vmon.gen import c16_gen as G
     q = tier == "quick"
     shards = []
-    shards += _split("fn", 6400 if q else 260000, 8 if q else 40)
-    shards += _split("ds", 1600 if q else 48000, 8 if q else 40)
-    shards += _split("limit", 800 if q else 24000, 4 if q else 16)
+    # cost per case (one core): fn ~2 ms, ds ~30 ms, limit ~13 ms, exhaustive array 5-9 ms
+    shards += _split("fn", 28000 if q else 500000, 8 if q else 48)
+    shards += _split("ds", 2800 if q else 30000, 8 if q else 48)
+    shards += _split("limit", 2000 if q else 30000, 4 if q else 16)
     e = EXH[tier]
     n_rand = sum(len(G.ALPHA1) ** n for n in range(e["rand_len"] + 1))
-    shards += _split("exh_rand", n_rand, 2 if q else 8, max_len=e["rand_len"])
-    shards += _split("exh_grid", G.exhaustive_grid_count(e["grid_len"]), 2 if q else 24,
+    shards += _split("exh_rand", n_rand, 4 if q else 8, max_len=e["rand_len"])
+    shards += _split("exh_grid", G.exhaustive_grid_count(e["grid_len"]), 3 if q else 16,
                      max_len=e["grid_len"])
     if ALIAS_ADJUNCT:
-        shards += _split("alias", 40 if q else 800, 1 if q else 2)
+        shards += _split("alias", 40 if q else 400, 1)
     return shards
 
 
@@ -145,8 +151,12 @@ def _bind(method, args, kwargs):
 def _in_domain(method, p):
     arrs = (p["a"],) if method == "rand" else (p["a"], p["b"])
     for v in arrs:
-        if not (isinstance(v, np.ndarray) and v.ndim == 1 and v.dtype.kind in "fiub"):
-            return False
+        if not (isinstance(v, np.ndarray) and v.ndim == 1
+                and v.dtype.kind in ("fiub" if method == "rand" else "fiu")):
+            return False          # (the limit filter hands a boolean array to the rand method)
+        if v.dtype.kind == "i" and v.size and \
+                int(v.max()) - int(v.min()) > np.iinfo(v.dtype).max:
+            return False          # max - min overflows the integer type: not judged
     if len({v.shape for v in arrs}) != 1:
         return False
     s = p["samples"]
@@ -158,12 +168,13 @@ def _in_domain(method, p):
         isinstance(p["ret_idx"], (bool, np.bool_))
 
 
-def _bits_equal(r1, r2):
+def _same_result(r1, r2):
+    """Same selection: equal masks and equal values (nan == nan)."""
     if isinstance(r1, tuple) != isinstance(r2, tuple):
         return False
     if not isinstance(r1, tuple):
         r1, r2 = (r1,), (r2,)
-    return len(r1) == len(r2) and all(M.same_bits(u, v) for u, v in zip(r1, r2))
+    return len(r1) == len(r2) and all(M.same_values(u, v) for u, v in zip(r1, r2))
 
 
 def _desc(method, p, extra=None):
@@ -244,7 +255,7 @@ def _observe(method, orig, args, kwargs):
         try:
             sh = orig(**kw)
             values, idx = sh[:-1], sh[-1]
-            same = all(M.same_bits(u, v) for u, v in zip(rt, values))
+            same = all(M.same_values(u, v) for u, v in zip(rt, values))
         except Exception as exc:  # pragma: no cover - would be caught by the ret_idx=True cases
             same, values, idx = False, rt, None
             ctx.count(f"shadow_ret_idx_exception[{type(exc).__name__}]")
@@ -255,13 +266,15 @@ def _observe(method, orig, args, kwargs):
     alias = None
     if method == "grid":
         key, sig = _alias_key(method, p)
-        prev = _S.seen.get(key)
-        if prev is not None and prev[0] != sig and prev[1] is res:
+        prev = _S.seen.setdefault(key, [])
+        if any(s0 != sig and r0 is res for s0, r0 in prev):
             alias = M.M_ALIAS     # the memo answered with the result of a different input
-        if prev is None:
-            _S.seen[key] = (sig, res)
-            if len(_S.seen) > 120:
-                _S.seen.popitem(last=False)
+        if not any(r0 is res for _, r0 in prev):
+            prev.append((sig, res))
+        if len(_S.seen) > 150:
+            _S.seen.popitem(last=False)
+        if any(v.dtype != a.dtype for v, a in zip(values, arrs)):
+            ctx.count("returned_dtype_differs_from_input(not judged)")
     verdicts = M.judge(arrs, samples, rinv, values, idx)
     for rule, problem in verdicts.items():
         ctx.check(mon + rule, problem is None, lambda: _desc(method, p, {"mask": idx}),
@@ -281,7 +294,7 @@ def _observe(method, orig, args, kwargs):
                   message=f"downsample_{method}: the repetition raised {exc!r} although the "
                           f"first call returned")
     else:
-        bad = [what for what, r in reps if not _bits_equal(res, r)]
+        bad = [what for what, r in reps if not _same_result(res, r)]
         ctx.check(mon + "reproducible", not bad, lambda: _desc(method, p, {"mask": idx}),
                   finding=alias if bad else None,
                   message=f"downsample_{method}: {bad} differs from the first result")
@@ -391,7 +404,7 @@ def _mk_scatter(orig):
             _S.origin = "scatter-shadow"
             try:
                 xr, yr, mask = orig(self, **kw)
-                same = M.same_bits(xr, res[0]) and M.same_bits(yr, res[1])
+                same = M.same_values(xr, res[0]) and M.same_values(yr, res[1])
             except Exception as exc:
                 same, xr, yr, mask = False, res[0], res[1], None
                 ctx.count(f"shadow_ret_mask_exception[{type(exc).__name__}]")
@@ -508,15 +521,6 @@ def _call(method, a, b, samples, rinv, ret_idx, style):
     return f(*lead, samples, **kw)
 
 
-def _digest(res):
-    h = hashlib.sha1()
-    for v in (res if isinstance(res, tuple) else (res,)):
-        v = np.ascontiguousarray(v)
-        h.update(str((v.dtype, v.shape)).encode())
-        h.update(v.tobytes())
-    return h.hexdigest()
-
-
 def _nontrivial(ctx, kind, arrs, samples, rinv):
     bad = _inv(arrs)
     n, nb = int(arrs[0].size), int(bad.sum())
@@ -564,7 +568,7 @@ def run_fn(ctx):
             res, exc = _run_fn_call(c)
         finally:
             _S.origin = "direct"
-        ok = exc is None and _digest(res) == dig
+        ok = exc is None and _same_result(res, dig)
         ctx.check(c["method"] + ".reproducible_interleaved", ok,
                   lambda: {"case": {k: v for k, v in c.items()}, "exc": repr(exc)},
                   message=f"downsample_{c['method']}: repeating the call after "
@@ -583,7 +587,7 @@ def run_fn(ctx):
                              "25-399" if n < 400 else "400-3999" if n < 4000 else
                              "4000-29999" if n < 30000 else ">=30000") + "]")
         if exc is None and idx % 3 == 0:
-            pending.append((c, _digest(res)))
+            pending.append((c, res))
         if idx % 211 == 0:
             Cache.clear_cache()
             ctx.count("cache_cleared")
@@ -649,7 +653,9 @@ def _build_ds(cols, recipe):
         pf = PolygonFilter(axes=tuple(recipe["polygon"]["axes"]),
                            points=np.array(recipe["polygon"]["points"]),
                            inverted=recipe["polygon"]["inverted"])
-        cfg["polygon filters"] = [pf.unique_id]
+        # not `= [id]`: the config parser drops a list item 0 (`if it:` in fintlist), which
+        # silently ignores the first polygon filter of a process - a C03 matter
+        cfg["polygon filters"].append(pf.unique_id)
     cfg["limit events"] = recipe["limit"]
     ds.apply_filter()
     return ds
@@ -704,7 +710,7 @@ def run_ds(ctx):
                     continue
                 for what, d in (("same dataset", ds), ("rebuilt dataset", ds2)):
                     r2, e2 = _scatter(d, p)
-                    ok = e2 is None and _bits_equal(res, r2)
+                    ok = e2 is None and _same_result(res, r2)
                     ctx.check("scatter.reproducible", ok,
                               lambda: {"call": p, "n": n, "recipe": recipe, "exc": repr(e2),
                                        "first": res, "second": r2},
